@@ -65,6 +65,7 @@ type Report struct {
 	Assume   []string
 	controls []controlResult
 	quiet    bool
+	floors   map[string][3]any
 }
 
 type controlResult struct {
@@ -140,10 +141,26 @@ func (r *Report) Instances(rule, what string, got, floor int) {
 	if got > r.rules[rule].Instances {
 		r.rules[rule].Instances = got
 	}
-	r.counts[rule+": "+what] = got
-	if got < floor {
-		r.add(rule, "floor:"+what, "-", Undecided, true,
-			fmt.Sprintf("rule matched %d %s, fewer than the %d confirmed on the pinned tree: anchor lost or code moved; the rule would pass vacuously", got, what, floor))
+	k := rule + ": " + what
+	if got > r.counts[k] {
+		r.counts[k] = got
+	}
+	if r.floors == nil {
+		r.floors = map[string][3]any{}
+	}
+	r.floors[k] = [3]any{rule, what, floor}
+}
+
+// checkFloors: judged on the largest count seen in any configuration (platform-specific files are
+// only present in their own configuration).
+func (r *Report) checkFloors() {
+	for k, f := range r.floors {
+		rule, what, floor := f[0].(string), f[1].(string), f[2].(int)
+		if got := r.counts[k]; got < floor {
+			r.config = "all"
+			r.add(rule, "floor:"+what, "-", Undecided, true,
+				fmt.Sprintf("rule matched %d %s, fewer than the %d confirmed on the pinned tree: anchor lost or code moved; the rule would pass vacuously", got, what, floor))
+		}
 	}
 }
 
@@ -191,6 +208,7 @@ func loadKnown(path string) ([]knownFinding, int, error) {
 var verifDir = "/verif"
 
 func (r *Report) Finish() int {
+	r.checkFloors()
 	known, nfixed, err := loadKnown(filepath.Join(verifDir, "known_findings.txt"))
 	if err != nil {
 		fmt.Printf("ERROR: cannot read known_findings.txt: %v\n", err)
